@@ -16,8 +16,6 @@ package circuitbreaker
 
 import (
 	"fmt"
-
-	"github.com/alibaba/sentinel-golang/util"
 )
 
 // Strategy represents the strategy of circuit breaker.
@@ -120,11 +118,11 @@ func (r *Rule) isEqualsTo(newRule *Rule) bool {
 
 	switch newRule.Strategy {
 	case SlowRequestRatio:
-		return r.MaxAllowedRtMs == newRule.MaxAllowedRtMs && util.Float64Equals(r.Threshold, newRule.Threshold)
+		return r.MaxAllowedRtMs == newRule.MaxAllowedRtMs && r.Threshold == newRule.Threshold
 	case ErrorRatio:
-		return util.Float64Equals(r.Threshold, newRule.Threshold)
+		return r.Threshold == newRule.Threshold
 	case ErrorCount:
-		return util.Float64Equals(r.Threshold, newRule.Threshold)
+		return r.Threshold == newRule.Threshold
 	default:
 		return false
 	}
